@@ -3,50 +3,242 @@ package main
 import (
 	"context"
 	"fmt"
+	"os"
 	"time"
 
 	"github.com/synnaxlabs/cesium"
+	"github.com/synnaxlabs/cesium/verifx"
 	xfs "github.com/synnaxlabs/x/io/fs"
 	"github.com/synnaxlabs/x/telem"
 )
 
-func main() {
-	ctx := context.Background()
-	db, err := cesium.Open(ctx, "", cesium.WithFS(xfs.NewMem()), cesium.WithGCConfig(cesium.GCConfig{TryInterval: time.Hour}))
-	if err != nil {
-		panic(err)
-	}
-	must(db.CreateChannel(ctx, cesium.Channel{Key: 1, Name: "idx", IsIndex: true, DataType: telem.TimeStampT},
-		cesium.Channel{Key: 2, Name: "d", Index: 1, DataType: telem.Int64T}))
-	ts := func(v ...int64) telem.Series {
-		o := make([]telem.TimeStamp, len(v))
-		for i, x := range v {
-			o[i] = telem.TimeStamp(x)
-		}
-		return telem.NewSeries(o)
-	}
-	w := func(start int64, t []int64) {
-		vals := make([]int64, len(t))
-		for i := range t {
-			vals[i] = t[i] * 100
-		}
-		must(db.Write(ctx, telem.TimeStamp(start), telem.MultiFrame([]cesium.ChannelKey{1, 2}, []telem.Series{ts(t...), telem.NewSeries(vals)})))
-	}
-	w(10, []int64{10, 11, 12, 13, 14, 15, 16, 17, 18, 19})
-	w(30, []int64{30, 31, 32})
-	// delete from ts 13 (offset 3 samples = 24 bytes == size of 2nd domain) to start of 2nd domain
-	err = db.DeleteTimeRange(ctx, []cesium.ChannelKey{2}, telem.TimeRange{Start: 13, End: 30})
-	fmt.Println("delete err:", err)
-	fr, err := db.Read(ctx, telem.TimeRangeMax, 2)
-	fmt.Println("read err:", err)
-	for _, s := range fr.Get(2).Series {
-		fmt.Println(s.TimeRange.Start, s.TimeRange.End, telem.UnmarshalSeries[int64](s))
-	}
-	must(db.Close())
-}
+var ctx = context.Background()
 
 func must(err error) {
 	if err != nil {
 		panic(err)
+	}
+}
+
+func ts(v ...int64) telem.Series {
+	o := make([]telem.TimeStamp, len(v))
+	for i, x := range v {
+		o[i] = telem.TimeStamp(x)
+	}
+	return telem.NewSeries(o)
+}
+
+func open(cap telem.Size) *cesium.DB {
+	opts := []cesium.Option{cesium.WithFS(xfs.NewMem()), cesium.WithGCConfig(cesium.GCConfig{TryInterval: time.Hour})}
+	if cap > 0 {
+		opts = append(opts, cesium.WithFileSizeCap(cap))
+	}
+	db, err := cesium.Open(ctx, "", opts...)
+	must(err)
+	must(db.CreateChannel(ctx, cesium.Channel{Key: 1, Name: "idx", IsIndex: true, DataType: telem.TimeStampT},
+		cesium.Channel{Key: 2, Name: "d", Index: 1, DataType: telem.Int64T}))
+	return db
+}
+
+func write(db *cesium.DB, start int64, t ...int64) {
+	vals := make([]int64, len(t))
+	for i := range t {
+		vals[i] = t[i] * 100
+	}
+	must(db.Write(ctx, telem.TimeStamp(start), telem.MultiFrame([]cesium.ChannelKey{1, 2}, []telem.Series{ts(t...), telem.NewSeries(vals)})))
+}
+
+func show(it *cesium.Iterator, what string, ok bool) {
+	var got []int64
+	for _, s := range it.Value().Get(1).Series {
+		for _, v := range telem.UnmarshalSeries[telem.TimeStamp](s) {
+			got = append(got, int64(v))
+		}
+	}
+	fmt.Printf("  %-14s ok=%-5v idx samples=%v\n", what, ok, got)
+}
+
+func main() {
+	which := os.Args[1]
+	switch which {
+	case "r1": // forward traversal with a span smaller than the sample spacing loses a sample
+		db := open(0)
+		write(db, 10, 10, 20)
+		write(db, 30, 30, 40)
+		it, err := db.OpenIterator(cesium.IteratorConfig{Channels: []cesium.ChannelKey{1}, Bounds: telem.TimeRange{Start: 0, End: 100}})
+		must(err)
+		show(it, "SeekFirst", it.SeekFirst())
+		for i := 0; i < 8; i++ {
+			ok := it.Next(5)
+			show(it, fmt.Sprintf("Next(5)#%d", i+1), ok)
+		}
+		must(it.Close())
+	case "r1b": // step back after a long step forward
+		db := open(0)
+		write(db, 10, 10, 12)
+		write(db, 30, 30, 32)
+		write(db, 50, 50, 52)
+		it, err := db.OpenIterator(cesium.IteratorConfig{Channels: []cesium.ChannelKey{1}, Bounds: telem.TimeRange{Start: 0, End: 100}})
+		must(err)
+		show(it, "SeekGE(12)", it.SeekGE(12))
+		show(it, "Next(80)", it.Next(80))
+		show(it, "Prev(5)", it.Prev(5))
+		show(it, "SeekFirst", it.SeekFirst())
+		show(it, "Next(max)", it.Next(telem.TimeSpanMax))
+		show(it, "Prev(max)", it.Prev(telem.TimeSpanMax))
+		must(it.Close())
+	case "r2": // stack overflow
+		db := open(0)
+		write(db, 10, 10, 13, 16, 19, 22, 25)
+		it, err := db.OpenIterator(cesium.IteratorConfig{Channels: []cesium.ChannelKey{1}, Bounds: telem.TimeRange{Start: 5, End: 20}, AutoChunkSize: 2})
+		must(err)
+		show(it, "SeekLE(21)", it.SeekLE(21))
+		fmt.Println("  calling Next(AutoSpan) ...")
+		show(it, "Next(auto)", it.Next(cesium.AutoSpan))
+	case "r3": // Distance discontinuity: data domain spanning three contiguous index domains
+		db := open(0)
+		// index written in three sessions that are contiguous in time
+		must(db.Write(ctx, 10, telem.UnaryFrame[cesium.ChannelKey](1, ts(10, 11, 12))))
+		must(db.Write(ctx, 13, telem.UnaryFrame[cesium.ChannelKey](1, ts(13, 14))))
+		must(db.Write(ctx, 15, telem.UnaryFrame[cesium.ChannelKey](1, ts(15, 16, 17))))
+		// data written later in one session against the stored index
+		must(db.Write(ctx, 10, telem.UnaryFrame[cesium.ChannelKey](2, telem.NewSeries([]int64{1000, 1100, 1200, 1300, 1400, 1500, 1600, 1700}))))
+		ui, _ := db.VerifUnary(1)
+		for _, tr := range []telem.TimeRange{{Start: 10, End: 15}, {Start: 10, End: 13}, {Start: 11, End: 15}, {Start: 10, End: 18}} {
+			ap, al, derr := ui.Index().Distance(ctx, tr, true)
+			fmt.Println("  Distance", int64(tr.Start), int64(tr.End), "->", ap, al, derr)
+		}
+		di := ui.VerifDomain().OpenIterator(verifx.DomainIterRange(telem.TimeRangeMax))
+		for ok := di.SeekFirst(ctx); ok; ok = di.Next() {
+			fmt.Println("  idx domain", int64(di.TimeRange().Start), int64(di.TimeRange().End), di.Size())
+		}
+		di.Close()
+		u, _ := db.VerifUnary(2)
+		it, err := u.OpenIterator(verifx.UnaryIteratorConfig{Bounds: telem.TimeRange{Start: 0, End: 100}})
+		must(err)
+		fmt.Println("  SeekGE(13)", it.SeekGE(ctx, 13), it.View())
+		ok := it.Next(ctx, 2)
+		fmt.Println("  Next(2) ok=", ok, "view=", it.View().Start, it.View().End, "value=", it.Value().Get(2).Series, "err=", it.Error())
+		fr, err := db.Read(ctx, telem.TimeRange{Start: 13, End: 15}, 2)
+		fmt.Println("  db.Read([13,15), data) ->", fr.Get(2).Series, err)
+	case "r3b":
+		db := open(1)
+		f := false
+		w, err := db.OpenWriter(ctx, cesium.WriterConfig{Start: 75, Channels: []cesium.ChannelKey{1}, EnableAutoCommit: &f})
+		must(err)
+		for _, chunk := range [][]int64{{75, 80, 82}, {83}, {87, 91, 92}} {
+			_, err = w.Write(telem.UnaryFrame[cesium.ChannelKey](1, ts(chunk...)))
+			must(err)
+			_, err = w.Commit()
+			must(err)
+		}
+		must(w.Close())
+		must(db.Write(ctx, 75, telem.UnaryFrame[cesium.ChannelKey](2, telem.NewSeries([]int64{1, 2, 3, 4, 5, 6, 7}))))
+		ui, _ := db.VerifUnary(1)
+		for _, k := range []cesium.ChannelKey{1, 2} {
+			uu, _ := db.VerifUnary(k)
+			di := uu.VerifDomain().OpenIterator(verifx.DomainIterRange(telem.TimeRangeMax))
+			for ok := di.SeekFirst(ctx); ok; ok = di.Next() {
+				fmt.Println("  ch", k, "domain", int64(di.TimeRange().Start), int64(di.TimeRange().End), di.Size())
+			}
+			di.Close()
+		}
+		for _, tr := range []telem.TimeRange{{Start: 75, End: 84}, {Start: 75, End: 83}, {Start: 75, End: 85}} {
+			ap, al, derr := ui.Index().Distance(ctx, tr, true)
+			fmt.Println("  Distance", int64(tr.Start), int64(tr.End), "->", ap, al, derr)
+		}
+		fr, err := db.Read(ctx, telem.TimeRange{Start: 83, End: 84}, 2)
+		fmt.Println("  db.Read([83,84), data) ->", fr.Get(2).Series, err)
+		fr, err = db.Read(ctx, telem.TimeRange{Start: 70, End: 84}, 2)
+		fmt.Println("  db.Read([70,84), data) ->", fr.Get(2).Series, err)
+	case "r6": // backwards commit accepted on file rollover (C03)
+		db := open(64)
+		f := false
+		w, err := db.OpenWriter(ctx, cesium.WriterConfig{Start: 30, Channels: []cesium.ChannelKey{1}, EnableAutoCommit: &f})
+		must(err)
+		_, err = w.Write(telem.UnaryFrame[cesium.ChannelKey](1, ts(33, 35, 37, 39, 42)))
+		must(err)
+		end, err := w.Commit()
+		fmt.Println("  commit#1 end=", int64(end), err)
+		_, err = w.Write(telem.UnaryFrame[cesium.ChannelKey](1, ts(30, 32, 33)))
+		must(err)
+		end, err = w.Commit()
+		fmt.Println("  commit#2 end=", int64(end), err)
+		fmt.Println("  close:", w.Close())
+		uu, _ := db.VerifUnary(1)
+		di := uu.VerifDomain().OpenIterator(verifx.DomainIterRange(telem.TimeRangeMax))
+		for ok := di.SeekFirst(ctx); ok; ok = di.Next() {
+			fmt.Println("  idx domain", int64(di.TimeRange().Start), int64(di.TimeRange().End), di.Size())
+		}
+		di.Close()
+		fr, err := db.Read(ctx, telem.TimeRange{Start: 34, End: 100}, 1)
+		fmt.Println("  db.Read([34,100)) ->", fr.Get(1).Series, err)
+		fr, err = db.Read(ctx, telem.TimeRangeMax, 1)
+		fmt.Println("  db.Read(all) ->", fr.Get(1).Series, err)
+	case "r7": // delete cut snapped to epoch
+		db := open(0)
+		write(db, 16, 19, 20) // writer start 16 is before the first sample 19
+		keys := []cesium.ChannelKey{1, 2}
+		if len(os.Args) > 2 {
+			keys = []cesium.ChannelKey{2}
+		}
+		fmt.Println("  delete", keys, "[20,30):", db.DeleteTimeRange(ctx, keys, telem.TimeRange{Start: 20, End: 30}))
+		for _, k := range []cesium.ChannelKey{1, 2} {
+			uu, _ := db.VerifUnary(k)
+			di := uu.VerifDomain().OpenIterator(verifx.DomainIterRange(telem.TimeRangeMax))
+			for ok := di.SeekLast(ctx); ok; ok = di.Prev() {
+				fmt.Println("  ch", k, "domain (backwards)", int64(di.TimeRange().Start), int64(di.TimeRange().End), di.Size())
+			}
+			di.Close()
+		}
+		fr, err := db.Read(ctx, telem.TimeRangeMax, 1, 2)
+		fmt.Println("  db.Read(all) ->", fr.Get(1).Series, fr.Get(2).Series, err)
+	case "r8":
+		db := open(64)
+		f := false
+		sess := func(start int64, chunks ...[]int64) {
+			w, err := db.OpenWriter(ctx, cesium.WriterConfig{Start: telem.TimeStamp(start), Channels: []cesium.ChannelKey{1, 2}, EnableAutoCommit: &f})
+			must(err)
+			for _, c := range chunks {
+				vals := make([]int64, len(c))
+				_, err = w.Write(telem.MultiFrame([]cesium.ChannelKey{1, 2}, []telem.Series{ts(c...), telem.NewSeries(vals)}))
+				must(err)
+				_, err = w.Commit()
+				must(err)
+			}
+			must(w.Close())
+		}
+		sess(40, []int64{40, 43, 46}, []int64{47, 49, 52, 53}, []int64{54, 57, 58})
+		sess(16, []int64{19}, []int64{20})
+		dump := func() {
+			for _, k := range []cesium.ChannelKey{1, 2} {
+				uu, _ := db.VerifUnary(k)
+				di := uu.VerifDomain().OpenIterator(verifx.DomainIterRange(telem.TimeRangeMax))
+				for ok := di.SeekLast(ctx); ok; ok = di.Prev() {
+					fmt.Println("  ch", k, "domain (backwards)", int64(di.TimeRange().Start), int64(di.TimeRange().End), di.Size())
+				}
+				di.Close()
+			}
+		}
+		dump()
+		fmt.Println("  delete [20,59):", db.DeleteTimeRange(ctx, []cesium.ChannelKey{1, 2}, telem.TimeRange{Start: 20, End: 59}))
+		dump()
+	case "r5": // auto-span backwards from SeekLast with chunk 1
+		db := open(0)
+		write(db, 10, 10, 13)
+		write(db, 20, 20, 23)
+		it, err := db.OpenIterator(cesium.IteratorConfig{Channels: []cesium.ChannelKey{1}, Bounds: telem.TimeRange{Start: 0, End: 100}, AutoChunkSize: 1})
+		must(err)
+		show(it, "SeekLast", it.SeekLast())
+		for i := 0; i < 5; i++ {
+			ok := it.Prev(cesium.AutoSpan)
+			show(it, "Prev(auto)", ok)
+			fmt.Println("    err:", it.Error())
+		}
+		show(it, "SeekFirst", it.SeekFirst())
+		show(it, "Next(2)", it.Next(2))
+		for i := 0; i < 4; i++ {
+			show(it, "Next(auto)", it.Next(cesium.AutoSpan))
+		}
 	}
 }
